@@ -7,7 +7,7 @@
 // Undefined / removed members omitted, strings as JSONUtils::Escape writes them, no comma before the closing bracket.
 // ROOT: 0 the array itself, 1 a pointer to it.   h_scalar_root: a scalar / string root writes nothing (ValueTest.hpp:75).
 #include "fixed_stream.hpp"
-#include "Value.hpp"
+#include "JSON.hpp"
 #include "vf.h"
 using namespace Qentem;
 typedef Value<char> V; typedef Array<V> AT; typedef unsigned long long u64; typedef long long i64; typedef ValueType T;
@@ -151,6 +151,37 @@ extern "C" void h_real_stream() {          // the String-returning overload thro
         if (N == 1) vf_assert(txt.Length() == 6 && p[0] == '[' && p[1] == 'n' && p[2] == 'u' && p[3] == 'l' && p[4] == 'l' && p[5] == ']', 2);
         if (N == 2) vf_assert(txt.Length() == 8 && p[5] == ',' && p[6] == char('0' + char(x)) && p[7] == ']', 3);
         vf_assert(p[txt.Length()] == 0, 4);
+    }
+    vf_witness();
+}
+
+// Stringify then Parse gives an equal tree (and stringify-parse-stringify is a fixed point) -- for member kinds whose text
+// is concrete: literals, nested empty arrays, omitted members (0, 20, 10, 8, 9, 3).  Numbers and strings make the text
+// layout symbolic and with it the kinds the parser creates; that composition did not reach a verdict and is not claimed.
+static T kind_of(int e) { return e == 10 ? T::Null : (e == 8 ? T::True : (e == 9 ? T::False : T::Array)); }
+extern "C" void h_roundtrip() {
+    {
+        FS e;
+        V t1, t2;
+        V arr(T::Array);
+        FS s;
+        if (N > 0) add_member<E1>(arr, 0, e, t1);
+        if (N > 1) add_member<E2>(arr, 1, e, t2);
+        arr.Stringify(s, 17);
+        vf_assert(!s.overflow, 1);
+        FS scratch;
+        V back = JSON::Parse(scratch, (const char *)s.First(), s.Length());
+        const bool p1 = (N > 0) && present(E1), p2 = (N > 1) && present(E2);
+        const unsigned cnt = (p1 ? 1u : 0u) + (p2 ? 1u : 0u);
+        vf_assert(back.Type() == T::Array && back.Size() == cnt, 2);       // Undefined members are gone, the rest is in order
+        if (p1) vf_assert(back.GetValue(0) != nullptr && back.GetValue(0)->Type() == kind_of(E1) && back.GetValue(0)->Size() == 0, 3);
+        if (p2) vf_assert(back.GetValue(cnt - 1) != nullptr && back.GetValue(cnt - 1)->Type() == kind_of(E2) && back.GetValue(cnt - 1)->Size() == 0, 4);
+        FS s2;
+        back.Stringify(s2, 17);                                            // fixed point
+        vf_assert(!s2.overflow && s2.Length() == s.Length(), 5);
+        unsigned i = vf_u32();
+        vf_assume(i < s.Length());
+        vf_assert(s2.buf[i] == s.buf[i], 6);
     }
     vf_witness();
 }
